@@ -118,6 +118,28 @@ def part_c03(tier, seed):
             args2 = dict(args, stim2={str(k): v for k, v in stim2.items()})
             for clause, msg in reuse_values(sim, c, stim2, n, opts):
                 b.violation(f'{key}:{clause}', f'{clause} on {sig} {opts}: {msg}', 'bounded.wave_parts:run_c03', args2, function='kyupy.wave_sim.WaveSim.s_to_c')
+    # long waveforms behind short ones: every input line has capacity 4, the gate outputs 16; the output toggles five times.  Whoever looks up a capacity
+    # under the wrong index (a line index instead of an interface slot, ...) scans a truncated waveform.
+    for c, sig in overflow_circuits(second=('XOR2',)):
+        caps = [4] * (len(c.lines) + 3)
+        for l in c.lines:
+            if l.driver.kind not in ('input',):
+                caps[l.index] = 16
+        n = 2
+        stim = {i: [(0, [1.0 + i]), (1, [1.5 + i])] for i in range(4)}
+        stim[4] = [(0, [6.0]), (0, [0.5])]
+        delays = np.full((1, len(c.lines), 2, 2), 0.25, dtype=np.float32)
+        for opts in (WD.OPT_SETS[0], WD.OPT_SETS[3]):
+            args = replay_args(c, delays, stim, n, opts, caps)
+            key = 'bounded:C03:' + ','.join(k for k, v in opts.items() if v)
+            b.case((str(sig), str(opts), 'caps-4-16'), True, sample={'circuit': str(sig), 'options': opts, 'caps': 'inputs 4, gate outputs 16'})
+            try:
+                sim = WD.run(c, delays, stim, n, opts, caps)
+            except Exception as e:  # noqa
+                b.violation(key + ':exception', f'WaveSim on {sig} raised {e!r}', 'bounded.wave_parts:run_c03', args, function='kyupy.wave_sim.WaveSim')
+                continue
+            for clause, msg in WD.check_values(sim, c, stim, n, opts):
+                b.violation(f'{key}:{clause}', f'{clause} on {sig} {opts}: {msg}', 'bounded.wave_parts:run_c03', args, function='kyupy.wave_sim.WaveSim.c_to_s')
     b.notes.append(f'cases with an overflow indicator set: {overflow}')
     return b
 
@@ -595,6 +617,13 @@ def c13_checks(c, delays, stim, n, opts, caps, a_ctrl, T, cuda):
     cl, cc = np.asarray(sim.c_locs), np.asarray(sim.c_caps)
     sn = evaln.s_nodes(c)
     big = None
+    # call-site precondition of the capture: the output slot of a port / state element is the region (location AND capacity) of the line it captures
+    for i, node in enumerate(sn):
+        if len(node.ins) > 0 and node.ins[0] is not None:
+            l = node.ins[0].index
+            if (int(cl[sim.ppo_offset + i]), int(cc[sim.ppo_offset + i])) != (int(cl[l]), int(cc[l])):
+                out.append(('capture-requires:output-slot-is-the-captured-region', f'{node.name}: output slot ({int(cl[sim.ppo_offset + i])},{int(cc[sim.ppo_offset + i])}), captured line {l} at ({int(cl[l])},{int(cc[l])})'))
+                return out
     for i, node in enumerate(sn):
         if len(node.ins) == 0 or node.ins[0] is None:
             continue
@@ -622,10 +651,14 @@ def c13_checks(c, delays, stim, n, opts, caps, a_ctrl, T, cuda):
                     return out
     # accumulated weighted switching activity
     if a_ctrl is not None and not opts.get('c_reuse'):
-        nacc = int(np.asarray(sim.ops)[:, 6].max()) + 1 if len(sim.ops) else 0
+        # the accumulator and the weights of a signal are those the caller's table gives for *that line* (not what the op list happens to carry)
+        act = np.asarray(a_ctrl)
+        outs_ = [int(op[1]) for op in np.asarray(sim.ops)]
+        nacc = (max(int(act[o][0]) for o in outs_) + 1) if outs_ else 0          # accumulators of lines that are produced by an op
         want = np.zeros((max(nacc, 1), n), dtype=np.int64)
         for op in np.asarray(sim.ops):
-            o, acc_i, wr, wf = int(op[1]), int(op[6]), int(op[7]), int(op[8])
+            o = int(op[1])
+            acc_i, wr, wf = (int(v) for v in act[o])
             if acc_i < 0:
                 continue
             for lane in range(n):
@@ -637,7 +670,7 @@ def c13_checks(c, delays, stim, n, opts, caps, a_ctrl, T, cuda):
                 nfall = sum(1 for k, t in enumerate(ent) if k % 2 == 1)
                 want[acc_i, lane] += nrise * wr + nfall * wf
         got = np.asarray(sim.abuf)
-        if nacc > 0 and not np.array_equal(got[:nacc].astype(np.int64), want[:nacc]):
+        if nacc > 0 and (got.shape[0] < nacc or not np.array_equal(got[:nacc].astype(np.int64), want[:nacc])):
             out.append(('activity' + (':cuda' if cuda else ''), f'abuf = {got.tolist()}, weighted transition count of the produced waveforms = {want.tolist()}'))
     return out
 
@@ -690,9 +723,9 @@ def part_c13(tier, seed):
     return b
 
 
-def overflow_circuits():
+def overflow_circuits(second=('AND2', 'NOR2', 'OR2')):
     from kyupy.circuit import Circuit, Node, Line
-    for second in ('AND2', 'NOR2', 'OR2'):
+    for second in second:
         c = Circuit('ovlprop_' + second)
         ins = [Node(c, nm, 'input') for nm in ('a', 'b', 'c', 'd', 'y')]
         o = Node(c, 'o', 'output')
